@@ -241,6 +241,8 @@ def run(tier, seed, open_findings):
             base = Decimal(int(''.join(digs))).scaleb(exp)
             nums += [str(base), '-' + str(base), '+' + format(base, 'f'), format(base, 'f') + ('0' if '.' in format(base, 'f') else '.0'), '00' + format(base, 'f')]
     nums += ['1E+3', '1.50E2', '12e-1', '0.0', '0', '-0', '000', '1e0']
+    # zeros and tiny values whose Decimal form switches to exponent notation (seven or more fractional places)
+    nums += ['0.0000000', '-0.0000000', '+.000000000', '000.0000000000', '0E-7', '0e-10', '0.00000010', '0.000000123', '-0.0000001', '1E-7', '0.0000001000', '0E+3', '0e3']
     nums = sorted(set(nums))
     dbad = [b for r in pmap(eval_digits, [nums[i::16] for i in range(16)], procs=16) for b in r]
     out.append(result('C02.count_digits', f'{len(nums)} spellings of decimals with <= 3 significant digits and exponent -4..2', len(nums),
